@@ -91,7 +91,8 @@ DoCall(s, e) ==
 DoSetNew(s, e) ==
   LET c == Pc(s, e.p)
       s1 == Vif(ClearLp(Intervene(s, e.p, e.k), e.p, e.k), s.mp[e.k] # 0, "C01", "new_entry_over_present_key")
-      s2 == Vif(s1, e.cost > s.maxsize, "C06", "admitted_cost_above_maxsize")
+      s2a == Vif(s1, e.cost > s.maxsize, "C06", "admitted_cost_above_maxsize")
+      s2 == Vif(s2a, e.cost > s.maxsize /\ c.op = "lget", "C13", "load_above_maxsize_admitted_unlike_set")
       isset == c.op = "set"
       s3 == Vif(s2, isset /\ (c.k # e.k \/ c.v # e.v \/ c.cost # e.cost), "C01", "stored_other_than_written")
       s4a == Vif(s3, isset /\ e.dl # ExpDl(s, c, 0), "C03", "deadline_not_call_time_plus_ttl")
@@ -221,7 +222,7 @@ DoRet(s, e) ==
                        !.owes = Put(s.owes, e.p, <<>>)]
        [] e.op = "wait" ->
             \* (with the entry pool on, entry identities are recycled while their events are in flight: not compared)
-            Vif(s0, s.pool = 0 /\ ~Geq(s.appl, Get(s.need, e.p, <<>>)), "C20", "wait_returned_before_earlier_writes_applied")
+            Vif(s0, s.pool = 0 /\ ~s.closed /\ ~Geq(s.appl, Get(s.need, e.p, <<>>)), "C20", "wait_returned_before_earlier_writes_applied")
        [] e.op = "range" ->
             LET seen == ToSet(Get(s.rv, e.p, <<>>))
                 live == {k \in KeyDom : s.mp[k] # 0 /\ (En(s, s.mp[k]).dl = 0 \/ En(s, s.mp[k]).dl > c.t)}
@@ -378,6 +379,7 @@ Upd(s0, e) ==
     [] e.ev = "ticklocked" -> DoTickLocked(s, e)
     [] e.ev = "hang" -> DoHang(s, e)
     [] e.ev = "end" -> DoEnd(s, e)
+    [] e.ev = "census" -> Vif(s, e.after > e.before, "C10", "background_goroutine_alive_after_close")
     [] e.ev = "closecancel" -> [s EXCEPT !.closed = TRUE]
     [] e.ev = "stall" -> [s EXCEPT !.stalled = (e.on = 1)]
     [] e.ev = "mlocked" -> [s EXCEPT !.stalled = TRUE]
